@@ -376,6 +376,15 @@ def axis_conflicts(func_node):
                 if ta != tb:
                     out.append((n, f'`{unparse(n, 70)}` adds a {ta}-axis and a {tb}-axis quantity'))
         # slice(y..) pairs / BoundingBox positional order are covered by keywords above
+    # min/max/clip of quantities of different axes: an x extent bounded by the y size (`min(ceil(xc + r), shape[0])`)
+    for n in ast.walk(func_node):
+        if isinstance(n, ast.Call) and unparse(n.func, 0).split('.')[-1] in ('min', 'max', 'minimum', 'maximum') \
+                and len(n.args) == 2 and not n.keywords:
+            ta, tb = tag(n.args[0]), tag(n.args[1])
+            if isinstance(ta, str) and isinstance(tb, str):
+                checked += 1
+                if ta != tb:
+                    out.append((n, f'`{unparse(n.args[0], 40)}` ({ta}) is bounded by the {tb}-axis value `{unparse(n.args[1], 40)}`'))
     return out, checked
 
 
